@@ -18,6 +18,7 @@ import (
 	"fmt"
 	"os"
 	"path/filepath"
+	"regexp"
 	"sort"
 	"strings"
 	"sync"
@@ -117,6 +118,44 @@ type desc struct {
 	Analysis *Analysis `json:"analysis,omitempty"`
 }
 
+// traceDesc is the replay content of a page-trace case
+type traceDesc struct {
+	Trace         *PageTrace `json:"trace"`
+	Verdict       string     `json:"verdict"`
+	RenderOutcome string     `json:"render_outcome"`
+	HTML          string     `json:"html"`
+	UserCSS       []string   `json:"user_css,omitempty"`
+	Hints         bool       `json:"hints"`
+	Engine        string     `json:"engine"`
+	Doc           *Doc       `json:"doc,omitempty"`
+	Corpus        string     `json:"corpus,omitempty"`
+}
+
+func pagesBucket(n int) string {
+	switch {
+	case n <= 1:
+		return "1"
+	case n <= 5:
+		return "2-5"
+	}
+	return "6+"
+}
+
+var floatFootnoteRe = regexp.MustCompile(`float\s*:\s*footnote`)
+
+// usesFootnotes: some declaration of the document asks for float: footnote
+func usesFootnotes(d *Doc) bool {
+	if floatFootnoteRe.MatchString(d.HTML()) {
+		return true
+	}
+	for _, u := range d.UserCSS() {
+		if floatFootnoteRe.MatchString(u) {
+			return true
+		}
+	}
+	return false
+}
+
 func main() {
 	if os.Getenv("VERIF_WORKER") == "1" {
 		workerMain()
@@ -136,6 +175,8 @@ func main() {
 	confirmMs := flag.Int("confirm-ms", 40000, "second, longer watchdog for documents that exceeded the first one")
 	maxShrunk := flag.Int("max-shrunk", 60, "number of failing documents that are shrunk (the rest is reported unshrunk)")
 	maxShrink := flag.Int("shrink-calls", 120, "render budget per shrunk failing case in the stream")
+	traceEvery := flag.Int("trace-every", 4, "record the page trace of every k-th document (documents with footnotes and hanging documents are always traced; 0: only those)")
+	tracePages := flag.Int("trace-pages", 60, "page cap of a page trace")
 	flag.Parse()
 
 	pool := NewPool(*par)
@@ -264,6 +305,39 @@ func main() {
 		wg.Wait()
 	}
 
+	// page traces (model-level tie of the page loop, Check.C01.replay): the first
+	// pagination round recorded page by page through layout.VerifPageTrace, for the
+	// documents with footnotes, a sample of the others, and every document that did
+	// not return (trigger tag: is the page loop stuck or progressing?)
+	traces := make([]*PageTrace, len(items))
+	traceNote := make([]string, len(items))
+	{
+		var wg sync.WaitGroup
+		for i := range items {
+			st := res[i].Status
+			failing := st == "hang" || st == "fatal"
+			if !(failing || st == "ok" && (usesFootnotes(docs[i]) || *traceEvery > 0 && i%*traceEvery == 0)) {
+				continue
+			}
+			wg.Add(1)
+			go func(i int) {
+				defer wg.Done()
+				pages := *tracePages
+				if failing {
+					pages = 40
+				}
+				o := pool.Trace(docs[i], pages, 5000)
+				if o.Status == "ok" && o.Trace != nil {
+					traces[i] = o.Trace
+					traceNote[i] = o.Trace.Verdict()
+				} else if o.Status != "ok" {
+					traceNote[i] = "none:" + o.Status
+				}
+			}(i)
+		}
+		wg.Wait()
+	}
+
 	// shrink failing cases (in parallel, bounded) to compute the trigger tags
 	shrunk := make([]*Doc, len(items))
 	var wg sync.WaitGroup
@@ -342,6 +416,7 @@ func main() {
 		os.Exit(2)
 	}
 	w := vlib.NewWriter(*out)
+	nTrace := 0
 	for i, it := range items {
 		o := res[i]
 		tags := it.doc.Features(false)
@@ -391,10 +466,49 @@ func main() {
 				tags = append(tags, "t:"+t)
 			}
 			ds.Analysis = &an
+			for _, c := range o.OnStack {
+				tags = append(tags, "t:on-stack:"+c)
+			}
+			if (o.Status == "hang" || o.Status == "fatal") && traceNote[i] != "" {
+				// is the page loop itself stuck (a page that places nothing) or progressing?
+				tags = append(tags, "t:page-loop:"+traceNote[i])
+			}
 		}
-		w.Add(vlib.Case{Kind: it.kind, Coq: coqTerm(o), Desc: ds, Tags: tags,
-			Nontrivial: it.doc.Size() > 3, Key: ds.HTML + "\x00" + strings.Join(ds.UserCSS, "\x00") + fmt.Sprint(ds.Hints, ds.Engine)})
+		key := ds.HTML + "\x00" + strings.Join(ds.UserCSS, "\x00") + fmt.Sprint(ds.Hints, ds.Engine)
+		w.Add(vlib.Case{Kind: it.kind, Coq: coqTerm(o), Desc: ds, Tags: tags, Nontrivial: it.doc.Size() > 3, Key: key})
+		if t := traces[i]; t != nil {
+			nTrace++
+			ttags := append(it.doc.Features(false), "page-trace", "page-trace:"+traceNote[i], fmt.Sprintf("trace-pages=%s", pagesBucket(len(t.Steps))))
+			blank, fnPages := 0, 0
+			for _, s := range t.Steps {
+				if s.Blank {
+					blank++
+				}
+				if s.FnIn > 0 {
+					fnPages++
+				}
+			}
+			if blank > 0 {
+				ttags = append(ttags, "trace:blank-pages")
+			}
+			if fnPages > 0 {
+				ttags = append(ttags, "trace:reported-footnotes")
+			}
+			if t.Footnotes > 0 {
+				ttags = append(ttags, "trace:footnotes")
+			}
+			if t.Truncated {
+				ttags = append(ttags, "trace:truncated")
+			}
+			if traceNote[i] != "progress" {
+				for _, f := range it.doc.Features(true) {
+					ttags = append(ttags, "t:"+f)
+				}
+			}
+			td := traceDesc{Trace: t, Verdict: traceNote[i], RenderOutcome: o.Status, HTML: ds.HTML, UserCSS: ds.UserCSS, Hints: ds.Hints, Engine: ds.Engine, Doc: it.doc, Corpus: it.corpus}
+			w.Add(vlib.Case{Kind: it.kind + "-trace", Coq: t.Coq(), Desc: td, Tags: ttags, Nontrivial: len(t.Steps) > 1, Key: "trace\x00" + key})
+		}
 	}
 	w.Close()
-	fmt.Printf("c01: %d documents, %d not ok\n", len(items), nFail)
+	fmt.Printf("c01: %d documents, %d not ok, %d page traces\n", len(items), nFail, nTrace)
 }
